@@ -18,6 +18,10 @@ type C17Case struct {
 	// TwoClients (runner launch with TempDir): two clients are created from this one ClientConfig (one
 	// UnixSocketConfig) and alive at the same time; each has a socket directory of its own
 	TwoClients bool `json:"twoClients,omitempty"`
+	// TwoConcurrent (with TwoClients, SkipHostEnv): the two clients are started at the same time, and the first
+	// one's runner keeps the cmd.Env slice it was handed and "launches" from it in Runner.Start, which happens
+	// after the second client has prepared its own launch: it must still find its own variables there
+	TwoConcurrent bool `json:"twoConcurrent,omitempty"`
 	// RetryStart (runner launch): the RunnerFunc fails the first time it is called; Start is called again on
 	// the same client and the environment of that second launch is the one judged
 	RetryStart bool   `json:"retryStart,omitempty"`
@@ -35,12 +39,14 @@ type C17Obs struct {
 	Captured   bool     `json:"captured"`
 	// two clients from one config: the directory each runner was handed, PLUGIN_UNIX_SOCKET_DIR in each
 	// command's environment, and which directories exist at each stage ("AB" = both)
-	TwoTmp      []string `json:"twoTmp,omitempty"`
-	TwoEnvDir   []string `json:"twoEnvDir,omitempty"`
-	TwoStartErr []string `json:"twoStartErr,omitempty"`
-	ExistBoth   string   `json:"existBoth,omitempty"`   // after both started
-	ExistAfterA string   `json:"existAfterA,omitempty"` // after A was killed (B alive)
-	ExistAfterB string   `json:"existAfterB,omitempty"` // after both were killed
+	TwoTmp        []string `json:"twoTmp,omitempty"`
+	TwoEnvDir     []string `json:"twoEnvDir,omitempty"`
+	TwoLaunchDir  []string `json:"twoLaunchDir,omitempty"`  // PLUGIN_UNIX_SOCKET_DIR in the kept slice at launch time
+	TwoLaunchSame []bool   `json:"twoLaunchSame,omitempty"` // the kept slice still equals what the RunnerFunc was handed
+	TwoStartErr   []string `json:"twoStartErr,omitempty"`
+	ExistBoth     string   `json:"existBoth,omitempty"`   // after both started
+	ExistAfterA   string   `json:"existAfterA,omitempty"` // after A was killed (B alive)
+	ExistAfterB   string   `json:"existAfterB,omitempty"` // after both were killed
 	// e2e
 	ClientErr string `json:"clientErr"`
 	PingErr   string `json:"pingErr"`
